@@ -329,7 +329,7 @@ impl CelsData {
         {"kind": "fn", "file": "cel", "name": "add_cel", "key": "CelsData::add_cel", "impl_of": "CelsData", "impl_filter": r"impl<P>\s+CelsData<P>", "impl_header": "CelsData", "ret": "r",
          "rules": ["R1", "R6", "R11"], "sig_rewrites": [("RawCel<P>", "RawCel")],
          # closure contract spliced onto the real closure (annotation only)
-         "body_rewrites": [("|| None", "|| -> (e: Option<RawCel>) ensures e is None { None }")],
+         "closures": [{"after": ".resize_with(min_layers as usize,", "params": "", "ret": "e: Option<RawCel>", "ensures": "e is None"}],
          "ensures": ("        final(self).data.len() == old(self).data.len(),\n"
                      "        r is Ok <==> ((frame_id as int) < old(self).data.len() && old(self).at(frame_id as int, cel.data.layer_index as int) is None),\n"
                      "        r is Ok ==> final(self).at(frame_id as int, cel.data.layer_index as int) == Some(cel)\n"
@@ -1322,7 +1322,8 @@ UNITS["pixels"] = {
         {"kind": "struct", "file": "pixel", "name": "Indexed", "keep": None, "attrs": "#[derive(Clone, Copy)]\n"},
         {"kind": "fn", "file": "pixel", "name": "as_rgba", "impl_of": "Indexed", "ret": "r",
          # closure contract spliced onto the real closure (annotation only, like a loop invariant)
-         "body_rewrites": [(".map(|c| {", ".map(|c: &ColorPaletteEntry| -> (out: Rgba<u8>)\n            ensures out.0@ == seq![c.rgba8@[0], c.rgba8@[1], c.rgba8@[2], if transparent_color_index == index && !layer_is_background { 0u8 } else { c.rgba8@[3] }]\n        {")],
+         "closures": [{"after": ".map(", "params": "c: &ColorPaletteEntry", "ret": "out: Rgba<u8>",
+                       "ensures": "out.0@ == seq![c.rgba8@[0], c.rgba8@[1], c.rgba8@[2], if transparent_color_index == index && !layer_is_background { 0u8 } else { c.rgba8@[3] }]"}],
          "ensures": ("        (r is Some) == palette.entries@.contains_key(self.0 as u32),\n"
                      "        r is Some ==> ({ let e = palette.entries@[self.0 as u32];\n"
                      "            (r->0).0@ == seq![e.rgba8@[0], e.rgba8@[1], e.rgba8@[2], if transparent_color_index == self.0 && !layer_is_background { 0u8 } else { e.rgba8@[3] }] }),")},
@@ -1503,7 +1504,8 @@ UNITS["validate"] = {
          "rules": ["R1", "R6", "R11"],
          "body_rewrites": [("layers[cel_id.layer as u32].is_background()", "layers.layers[(cel_id.layer as u32) as usize].is_background()"),
                            ("layers[cel_id.layer as u32].layer_type", "layers.layers[(cel_id.layer as u32) as usize].layer_type"),
-                           (".map_or(0, |t| t.tile_count())", ".map_or(0, |t: &Tileset| -> (n: u32) ensures n == t.tile_count { t.tile_count() })")],
+                           ],
+         "closures": [{"after": ".map_or(0,", "params": "t: &Tileset", "ret": "n: u32", "ensures": "n == t.tile_count"}],
          "requires": ("        (cel_id.layer as int) < layers.layers.len(),\n"
                       "        forall|f: u16| #[trigger] validate_ref.requires((CelId { frame: f, layer: cel_id.layer },)),"),
          "ensures": ("        r is Ok ==> cel_validated(self, r->Ok_0, cel_id.layer as int, layers, tilesets),\n"
@@ -1534,9 +1536,10 @@ UNITS["validate"] = {
              ("cels_by_layer.into_iter().enumerate()", "it4: vec_into_iter_enumerate(cels_by_layer)"),
              ("for frame in 0..num_frames {", "for frame in it1: 0..num_frames {"),
              ("for layer in 0..num_layers {", "for layer in it2: 0..num_layers {"),
-             (".map_or(false, |c| c.content.is_raw())", ".map_or(false, |c: &RawCel<RawPixels>| -> (b: bool) ensures b == (c.content is Raw) { c.content.is_raw() })"),
-             ("let validate_ref = |id: CelId| {", "let validate_ref = |id: CelId| -> (res: Result<()>)\n            requires (id.layer as int) < num_layers\n            ensures res is Ok <==> ((id.frame as int) < num_frames && linkable(&self, id.frame as int, id.layer as int))\n        {"),
          ],
+         "closures": [{"after": ".map_or(false,", "params": "c: &RawCel<RawPixels>", "ret": "b: bool", "ensures": "b == (c.content is Raw)"},
+                      {"after": "let validate_ref =", "params": "id: CelId", "ret": "res: Result<()>", "requires": "(id.layer as int) < num_layers",
+                       "ensures": "res is Ok <==> ((id.frame as int) < num_frames && linkable(&self, id.frame as int, id.layer as int))"}],
          "hints": [
              ("let mut is_linkable_cel",
               "        assert((num_frames as int) * (num_layers as int) <= 65535 * 0x1_0000_0000) by (nonlinear_arith) requires 0 <= (num_frames as int) <= 65535, 0 <= (num_layers as int) <= 0x1_0000_0000;", "before"),
@@ -1621,5 +1624,93 @@ pub open spec fn tileset_validated(src: Tileset<RawPixels>, dst: Tileset<Pixels>
                        "                forall|k: TilesetId| #[trigger] result@.contains_key(k) <==> exists|i: int| 0 <= i < it.index@ && (#[trigger] it.snapshot@.remaining()[i]).0 == k,\n"
                        "                forall|i: int| 0 <= i < it.index@ ==> tileset_validated((#[trigger] it.snapshot@.remaining()[i]).1, result@[it.snapshot@.remaining()[i].0]),")},
          },
+    ],
+}
+
+
+# ------------------------------------------------------------------------------------------------
+# Public accessors (C01 / C19 observation points): each returns the stored attribute it is documented to return
+# ------------------------------------------------------------------------------------------------
+def G(file, impl, name, ensures, requires=None, hdr=None, **kw):
+    it = {"kind": "fn", "file": file, "name": name, "key": impl + "::" + name, "impl_of": impl, "ret": "r", "ensures": "        " + ensures}
+    if hdr:
+        it["impl_header"] = hdr
+    if requires:
+        it["requires"] = "        " + requires
+    it.update(kw)
+    return it
+LAYER_OK = "(self.layer_id as int) < self.file.layers.layers.len(),"
+LD = "self.file.layers.layers[self.layer_id as int]"
+CEL_OK = "(self.cel_id.frame as int) < self.file.framedata.data.len(),"
+CAT = "self.file.framedata.at(self.cel_id.frame as int, self.cel_id.layer as int)"
+UNITS["accessors"] = {
+    "prelude_sections": ["rgba_only", "layer_flags_only", "option_extra"],
+    "items": [
+        {"kind": "struct", "file": "user_data", "name": "UserData", "keep": None, "rewrites": [("image::Rgba<u8>", "Rgba<u8>")]},
+        {"kind": "enum", "file": "file", "name": "PixelFormat", "attrs": "#[derive(Clone, Copy)]\n"},
+        {"kind": "enum", "file": "tags", "name": "AnimationDirection", "attrs": "#[derive(Clone, Copy)]\n"},
+        {"kind": "struct", "file": "tags", "name": "Tag", "keep": None},
+        {"kind": "enum", "file": "layer", "name": "LayerType", "attrs": "#[derive(Clone, Copy)]\n"},
+        {"kind": "struct", "file": "layer", "name": "LayerData", "keep": ["flags", "opacity", "layer_type", "user_data"]},
+        {"kind": "struct", "file": "layer", "name": "LayersData", "keep": ["layers", "parents"]},
+        {"kind": "index_impl_check", "file": "layer", "type": "LayersData", "body": "{&self.layers[index as usize]}"},
+        {"kind": "struct", "file": "cel", "name": "CelId", "keep": None, "attrs": "#[derive(Clone, Copy)]\n"},
+        {"kind": "struct", "file": "cel", "name": "CelCommon", "keep": None},
+        {"kind": "struct", "file": "cel", "name": "ImageSize", "keep": None, "attrs": "#[derive(Clone, Copy)]\n"},
+        {"kind": "struct", "file": "cel", "name": "ImageContent", "keep": ["size"], "header": "struct ImageContent "},
+        {"kind": "struct", "file": "tilemap", "name": "TilemapData", "keep": ["width", "height"]},
+        {"kind": "enum", "file": "cel", "name": "CelContent", "rewrites": [("enum CelContent<P>", "enum CelContent"), ("ImageContent<P>", "ImageContent")]},
+        {"kind": "struct", "file": "cel", "name": "RawCel", "keep": None, "header": "struct RawCel ", "rewrites": [("CelContent<P>", "CelContent")]},
+        {"kind": "struct", "file": "cel", "name": "CelsData", "keep": ["data", "num_frames"], "header": "struct CelsData ", "rewrites": [("RawCel<P>", "RawCel")]},
+        {"kind": "struct", "file": "file", "name": "AsepriteFile", "keep": ["width", "height", "num_frames", "pixel_format", "layers", "frame_times", "tags", "framedata", "sprite_user_data"], "rewrites": [("CelsData<Pixels>", "CelsData")]},
+        {"kind": "struct", "file": "cel", "name": "Cel", "keep": None},
+        {"kind": "struct", "file": "file", "name": "Frame", "keep": None},
+        {"kind": "struct", "file": "layer", "name": "Layer", "keep": None},
+        {"kind": "verbatim", "text": """
+impl CelsData {
+    pub open spec fn at(&self, f: int, l: int) -> Option<RawCel> {
+        if 0 <= f < self.data.len() && 0 <= l < self.data[f].len() { self.data[f][l] } else { None }
+    }
+}
+"""},
+        {"kind": "fn", "file": "cel", "name": "cel", "key": "CelsData::cel", "impl_of": "CelsData", "impl_filter": r"impl<P>\s+CelsData<P>", "impl_header": "CelsData", "ret": "r",
+         "sig_rewrites": [("RawCel<P>", "RawCel")],
+         "requires": "        (cel_id.frame as int) < self.data.len(),",
+         "ensures": ("        (r is Some) == (self.at(cel_id.frame as int, cel_id.layer as int) is Some),\n"
+                     "        r is Some ==> *(r->0) == self.at(cel_id.frame as int, cel_id.layer as int)->0,")},
+        G("file", "AsepriteFile", "width", "r == self.width as usize,"),
+        G("file", "AsepriteFile", "height", "r == self.height as usize,"),
+        G("file", "AsepriteFile", "size", "r == (self.width as usize, self.height as usize),"),
+        G("file", "AsepriteFile", "pixel_format", "r == self.pixel_format,"),
+        G("file", "AsepriteFile", "is_indexed_color", "r == (self.pixel_format is Indexed),"),
+        G("file", "AsepriteFile", "transparent_color_index", "r == (match self.pixel_format { PixelFormat::Indexed { transparent_color_index } => Some(transparent_color_index), _ => None }),"),
+        G("file", "AsepriteFile", "num_tags", "r as int == self.tags.len(),", requires="self.tags.len() <= 0xffff_ffff,"),
+        G("file", "AsepriteFile", "tag", "*r == self.tags[tag_id as int],", requires="(tag_id as int) < self.tags.len(),"),
+        G("file", "AsepriteFile", "sprite_user_data", "(r is Some) == (self.sprite_user_data is Some), r is Some ==> *(r->0) == self.sprite_user_data->0,"),
+        G("file", "Frame", "id", "r == self.index,", hdr="<'a> Frame<'a>"),
+        G("file", "Frame", "duration", "r == self.file.frame_times[self.index as int] as u32,", requires="(self.index as int) < self.file.frame_times.len(),", hdr="<'a> Frame<'a>"),
+        G("layer", "Layer", "data", "*r == " + LD + ",", requires=LAYER_OK, hdr="<'a> Layer<'a>",
+          body_rewrites=[("&self.file.layers[self.layer_id]", "&self.file.layers.layers[self.layer_id as usize]")]),
+        G("layer", "Layer", "id", "r == self.layer_id,", hdr="<'a> Layer<'a>"),
+        G("layer", "Layer", "flags", "r == " + LD + ".flags,", requires=LAYER_OK, hdr="<'a> Layer<'a>"),
+        G("layer", "Layer", "opacity", "r == " + LD + ".opacity,", requires=LAYER_OK, hdr="<'a> Layer<'a>"),
+        G("layer", "Layer", "layer_type", "r == " + LD + ".layer_type,", requires=LAYER_OK, hdr="<'a> Layer<'a>"),
+        G("layer", "Layer", "is_tilemap", "r == (" + LD + ".layer_type is Tilemap),", requires=LAYER_OK, hdr="<'a> Layer<'a>"),
+        G("layer", "Layer", "user_data", "(r is Some) == (" + LD + ".user_data is Some), r is Some ==> *(r->0) == " + LD + ".user_data->0,", requires=LAYER_OK, hdr="<'a> Layer<'a>"),
+        G("layer", "Layer", "parent", "(r is Some) == (self.file.layers.parents[self.layer_id as int] is Some), r is Some ==> (r->0).layer_id == self.file.layers.parents[self.layer_id as int]->0 && (r->0).file == self.file,",
+          requires="(self.layer_id as int) < self.file.layers.parents.len(),", hdr="<'a> Layer<'a>",
+          closures=[{"after": ".map(", "params": "id: u32", "ret": "l: Layer<'a>", "ensures": "l.layer_id == id && l.file == self.file"}]),
+        G("cel", "Cel", "raw_cel", "(r is Some) == (" + CAT + " is Some), r is Some ==> *(r->0) == " + CAT + "->0,", requires=CEL_OK, hdr="<'a> Cel<'a>"),
+        G("cel", "Cel", "is_empty", "r == (" + CAT + " is None),", requires=CEL_OK, hdr="<'a> Cel<'a>"),
+        G("cel", "Cel", "is_tilemap", "r == (" + CAT + " is Some && " + CAT + "->0.content is Tilemap),", requires=CEL_OK, hdr="<'a> Cel<'a>"),
+        G("cel", "Cel", "top_left", "r == (match " + CAT + " { Some(c) => (c.data.x as i32, c.data.y as i32), None => (0i32, 0i32) }),", requires=CEL_OK, hdr="<'a> Cel<'a>",
+          closures=[{"after": ".map_or_else(", "params": "", "ret": "d: (i32, i32)", "ensures": "d == (0i32, 0i32)"},
+                    {"after": "{ (0, 0) },", "params": "raw: &RawCel", "ret": "p: (i32, i32)", "ensures": "p == (raw.data.x as i32, raw.data.y as i32)"}]),
+        G("cel", "Cel", "user_data", "(r is Some) == (" + CAT + " is Some && " + CAT + "->0.user_data is Some), r is Some ==> *(r->0) == " + CAT + "->0.user_data->0,", requires=CEL_OK, hdr="<'a> Cel<'a>",
+          closures=[{"after": ".and_then(", "params": "c: &'a RawCel", "ret": "u: Option<&'a UserData>", "ensures": "(u is Some) == (c.user_data is Some), u is Some ==> *(u->0) == c.user_data->0"}]),
+        G("tags", "Tag", "from_frame", "r == self.from_frame as u32,"),
+        G("tags", "Tag", "to_frame", "r == self.to_frame as u32,"),
+        G("tags", "Tag", "animation_direction", "r == self.animation_direction,"),
+        G("tags", "Tag", "user_data", "(r is Some) == (self.user_data is Some), r is Some ==> *(r->0) == self.user_data->0,"),
     ],
 }
